@@ -38,6 +38,30 @@ def rnd(n, **kw):
 
 # ------------------------------------------------------------------------------------------
 
+def split_shard(path, limit=40 << 20):
+    """TLC loads a whole shard into memory: split big shards at the start of a run (of a pair group)"""
+    if not os.path.exists(path) or os.path.getsize(path) <= limit:
+        return [path]
+    parts = []
+    out = None
+    size = 0
+    with open(path) as f:
+        for line in f:
+            if (out is None or size > limit) and line.startswith('{"ev":"reset"') and '"first":true' in line:
+                if out:
+                    out.close()
+                pp = "%s.part%d.ndjson" % (path[:-7], len(parts))
+                parts.append(pp)
+                out = open(pp, "w")
+                size = 0
+            out.write(line)
+            size += len(line)
+    if out:
+        out.close()
+    os.remove(path)
+    return parts
+
+
 class ReaderJob:
     """drive suites on the real readers, validate the traces against ReaderA (TraceReader.tla)"""
 
@@ -68,10 +92,10 @@ class ReaderJob:
                 stats[k] += st.get(k, 0)
             log("[drive] %s/%s: %s" % (self.name, label, st))
             for j in range(nsh):
-                shards.append(prefix + ".%d.ndjson" % j)
+                shards.extend(split_shard(prefix + ".%d.ndjson" % j))
             # a sample case of this suite, as recorded
             try:
-                with open(prefix + ".0.ndjson") as f:
+                with open(shards[-1] if not os.path.exists(prefix + ".0.ndjson") else prefix + ".0.ndjson") as f:
                     first = f.readline()
                     second = f.readline()
                 r = json.loads(first)
@@ -545,8 +569,9 @@ def build_jobs(prop, tier):
 
 def mc_readera(tier):
     # Judge is evaluated in every action; TLC's cost statistics (-coverage) make that very slow
-    return McJob("mcreadera", "MCReaderA", "MCReaderA_" + tier, ["C01", "C02", "C04", "C05"], workers=8, timeout=q(tier, 900, 7200), xmx="8g", coverage=False,
-                 inv_props={"NoFalseAlarm": ["C01", "C02", "C04", "C05"], "Sensitive": ["C01", "C02", "C04", "C05"], "Consequences": ["C01", "C02", "C04", "C05"]})
+    allp = ["C01", "C02", "C04", "C05", "C06", "C09", "C14"]
+    return McJob("mcreadera", "MCReaderA", "MCReaderA_" + tier, allp, workers=8, timeout=q(tier, 900, 7200), xmx="8g", coverage=False,
+                 inv_props={"NoFalseAlarm": allp, "Sensitive": allp, "Consequences": allp})
 
 
 def mc_fasta_b(tier):
@@ -770,4 +795,8 @@ def build_jobs(prop, tier):
         J = [mc_fasta_machine(tier), mc_fastq_machine(tier)] + J + [MachineDriftJob("fasta", tier), MachineDriftJob("fastq", tier)]
     elif prop in ("C05", "C06", "C14"):
         J = [mc_fasta_machine(tier), mc_fastq_machine(tier)] + J
+        if prop in ("C06", "C14"):
+            J = [mc_readera(tier)] + J
+    elif prop == "C09":
+        J = [mc_readera(tier)] + J
     return J
